@@ -156,6 +156,7 @@ class BasicContiguousVector<cntgs::Options<Option...>, Parameter...>
         ~BasicContiguousVector() noexcept
     {
         destruct_if_owned();
+        locator_->deallocate(max_element_count_, get_allocator());
     }
 
     template <class... Args>
@@ -383,6 +384,7 @@ class BasicContiguousVector<cntgs::Options<Option...>, Parameter...>
                                      new_max_element_count,
                                      get_allocator()};
         BasicContiguousVector::insert_into<true>(other_locator, new_max_element_count, new_memory, *this);
+        locator_->deallocate(max_element_count_, get_allocator());
         max_element_count_ = new_max_element_count;
         *locator_ = std::move(other_locator);
         memory_.reset(std::move(new_memory));
@@ -468,6 +470,7 @@ class BasicContiguousVector<cntgs::Options<Option...>, Parameter...>
     constexpr void steal(BasicContiguousVector&& other) noexcept
     {
         destruct();
+        locator_->deallocate(max_element_count_, get_allocator());
         max_element_count_ = other.max_element_count_;
         memory_ = std::move(other.memory_);
         locator_ = std::move(other.locator_);
@@ -498,6 +501,7 @@ class BasicContiguousVector<cntgs::Options<Option...>, Parameter...>
                         other.max_element_count_, get_allocator()};
                     destruct();
                     BasicContiguousVector::insert_into(*other_locator, other.max_element_count_, new_memory, other);
+                    locator_->deallocate(max_element_count_, get_allocator());
                     memory_ = std::move(new_memory);
                     locator_ = std::move(other_locator);
                 }
@@ -508,6 +512,7 @@ class BasicContiguousVector<cntgs::Options<Option...>, Parameter...>
                                                               other.max_element_count_, get_allocator()};
                     destruct();
                     BasicContiguousVector::insert_into(*other_locator, other.max_element_count_, memory_, other);
+                    locator_->deallocate(max_element_count_, get_allocator());
                     locator_ = std::move(other_locator);
                 }
                 max_element_count_ = other.max_element_count_;
@@ -526,6 +531,7 @@ class BasicContiguousVector<cntgs::Options<Option...>, Parameter...>
     void copy_assign(const BasicContiguousVector& other)
     {
         destruct();
+        locator_->deallocate(max_element_count_, get_allocator());
         memory_ = other.memory_;
         ElementLocatorAndFixedSizes other_locator{other.locator_, other.memory_begin(),     other.max_element_count_,
                                                   memory_begin(), other.max_element_count_, get_allocator()};
